@@ -69,7 +69,17 @@ func init() {
 	addRules("C09", "R-ENTRY-PRESENT", "R-SIZEPAIR")
 	addRules("C19", "R-SIZEPAIR")
 	addRules("C20", "R-TXPAIR")
-	addRules("C21", "R-RAWREAD")
+	addRules("C21", "R-RAWREAD", "R-GLOBALS", "R-SIZEPAIR")
+	addRules("C19", "R-SHORTREAD")
+	addRules("C09", "R-SHORTREAD")
+	addRules("C16", "R-RWPARITY", "R-ERRPOLICY")
+	addRules("C09", "R-RWPARITY")
+	addRules("C17", "R-RO")
+	addRules("C18", "R-SYNCIMPL", "R-RO-IO")
+	addRules("C20", "R-GLOBALS")
+	addRules("C22", "R-POS", "R-UPDATE", "R-MERGING-SCOPE")
+	addRules("C01", "R-MERGING-SCOPE")
+	reg("R-SHORTREAD", "In the entry decoder the byte count returned by RWManager.ReadAt is ignored, or the tests on it control no return of an error other than io.EOF.", ruleShortRead)
 	for _, id := range []string{"C05", "C06", "C07", "C08", "C13"} {
 		addRules(id, "R-APPLY-ALL")
 	}
